@@ -329,9 +329,10 @@ def global_state(db, modules=None):
                 if name:
                     # resolve a key variable to its defining expression inside the function, if it is a plain local
                     ksrc = keysrc
-                    for a in ast.walk(fn):
-                        if isinstance(a, ast.Assign) and len(a.targets) == 1 and isinstance(a.targets[0], ast.Name) and a.targets[0].id == keysrc:
-                            ksrc = ast.unparse(a.value)
+                    defs = [ast.unparse(a.value) for a in ast.walk(fn)
+                            if isinstance(a, ast.Assign) and len(a.targets) == 1 and isinstance(a.targets[0], ast.Name) and a.targets[0].id == keysrc]
+                    if defs:
+                        ksrc = " | ".join(defs)   # every definition of the key variable (a fallback `key = None` does not hide the real one)
                     out.append((mq, name, mq + "." + fn.name, n.lineno, how, ksrc))
     return out
 
@@ -466,21 +467,27 @@ def shapes_and_aliases(ctx, chk):
     for sc, ec in GAMMAS:
         outs = ctx.explore(lambda: ctx.ev.call(ctx.method(ctx.scores_obj(sc, ec), "cm"), [T], {}), chk)
         rets = returns(outs)
-        inst = "cm:%s/%s" % (sc, ec)
-        if len(rets) != 1 or not isinstance(rets[0].value, Obj):
-            chk.unknown("R10.2", "%s: %d return paths" % (inst, len(rets)))
+        inst0 = "cm:%s/%s" % (sc, ec)
+        if not rets or len(rets) > 6 or not all(isinstance(o.value, Obj) for o in rets):
+            chk.unknown("R10.2", "%s: %d return paths" % (inst0, len(rets)))
             continue
-        m = rets[0].value.attrs.get("matrix")
-        sh = libmodel.shape_of(m)
-        want = Tup([Star(App("shape", (T,))), Const(2), Const(2)])
-        bad = depends_nonpointwise(m, T)
-        if sh is not None and sh == want and bad is None:
-            chk.hold("R10.2", inst, "cm(t).shape = t.shape + (2, 2); cells written at (..., i, j) are elementwise in t")
-        elif bad is not None and ("attr:T" in bad or "transpose" in bad):
-            chk.violation("R10.2", SCORES + ".cm", inst, "matrix built through %s of a threshold-dependent array: %s" % (bad, show(m, 160)),
-                          "element [..., i, j] depends only on the same element of the threshold (axis reversal permutes elements for rank >= 2)", ctx.where(SCORES + ".cm"))
-        else:
-            chk.unknown("R10.2", "%s: matrix layout not understood (shape %s, operator %s)" % (inst, show(sh, 60) if sh is not None else "?", bad))
+        for k, o in enumerate(rets):
+            # every return path (special cases for empty / scalar thresholds included) delivers t.shape + (2, 2)
+            inst = inst0 if k == 0 else "%s [path %d: %s]" % (inst0, k + 1, pc_text(o)[:70])
+            m = o.value.attrs.get("matrix")
+            sh = libmodel.shape_of(m)
+            want = Tup([Star(App("shape", (T,))), Const(2), Const(2)])
+            bad = depends_nonpointwise(m, T)
+            if sh is not None and sh == want and bad is None:
+                chk.hold("R10.2", inst, "cm(t).shape = t.shape + (2, 2); cells written at (..., i, j) are elementwise in t")
+            elif bad is not None and ("attr:T" in bad or "transpose" in bad):
+                chk.violation("R10.2", SCORES + ".cm", inst, "matrix built through %s of a threshold-dependent array: %s" % (bad, show(m, 160)),
+                              "element [..., i, j] depends only on the same element of the threshold (axis reversal permutes elements for rank >= 2)", ctx.where(SCORES + ".cm"))
+            elif sh is not None and len(rets) > 1 and all(isinstance(i_, Const) for i_ in sh.items):
+                chk.violation("R10.2", SCORES + ".cm", inst, "on this path the matrix has the fixed shape %s" % show(sh, 60),
+                              "t.shape + (2, 2) for every threshold shape (empty thresholds of rank >= 2 included)", ctx.where(SCORES + ".cm"))
+            else:
+                chk.unknown("R10.2", "%s: matrix layout not understood (shape %s, operator %s)" % (inst, show(sh, 60) if sh is not None else "?", bad))
     # pointwise_cm: shape scores.shape + threshold.shape + (2, 2) through the flatten / restore pair
     pw = ctx.fn("score_analysis.scores.pointwise_cm")
     L_, S_, T_ = param("labels"), param("scores"), param("threshold")
